@@ -228,15 +228,13 @@ theorem convert_ok_proto (h : HeadersIn) (m u : Bytes) (hc : convertPollMessageS
   · have : (m == Http.str "CONNECT") = false := by simpa using e
     simp [this] at hc
 
-/-- **promised requests**: a `request` event for a delivered PUSH_PROMISE block means every rule of
-    `Spec.Http.request` holds for the block's field list except `missing-path` in the shape without
-    `:authority` (finding N3); the method is GET or HEAD; a content-length, if any, is 0 -/
+/-- **promised requests**: a `request` event for a delivered PUSH_PROMISE block means no rule of
+    `Spec.Http.request` is violated by the block's field list; the method is GET or HEAD; a
+    content-length, if any, is 0 -/
 theorem accepted_promise_rules (blk : HeaderBlock) (g : List Header) (promised : Nat) (ev : REvent)
     (hm : blk.isMalformed = false) (hb : BlockInv blk g) (hok : ∀ x ∈ g, fieldOk x = true)
     (ha : PromiseAccepted (Conn.headersIn promised false blk) ev) :
-    ∃ m u, ev = .request m u (groupInto [] (regular g)) ∧
-      (∀ r ∈ Spec.Http.request g false, r = "missing-path" ∧ Spec.Http.get g ":authority" = [] ∧
-        Spec.Http.get g ":path" = []) ∧
+    ∃ m u, ev = .request m u (groupInto [] (regular g)) ∧ Spec.Http.request g false = [] ∧
       (Spec.Http.get g ":method" = [Http.str "GET"] ∨ Spec.Http.get g ":method" = [Http.str "HEAD"]) ∧
       promiseClOk (Conn.headersIn promised false blk) = true := by
   obtain ⟨m, u, rfl, ho, hc, hcl, hsafe⟩ := ha
@@ -256,16 +254,10 @@ theorem accepted_promise_rules (blk : HeaderBlock) (g : List Header) (promised :
       split at hc <;> cases hc
   obtain ⟨r1, r2, r3⟩ := accepted_request_rules blk g promised false (true, false) m u _ hm hb hok
     ⟨ho, rfl, hc, hst, hnp, rfl⟩
-  refine ⟨m, u, by rw [← r2], fun r hr => ?_, ?_, hcl⟩
-  · rcases r1 r hr with ⟨-, e1, -⟩ | h2
-    · exfalso
-      rw [r3] at e1
-      have : m = Spec.Http.ascii "CONNECT" := by simpa using e1
-      rcases hsafe with e | e <;> (rw [e] at this; revert this; simp only [str_GET, str_HEAD, ascii_CONNECT]; decide)
-    · exact h2
-  · rw [r3]
-    rcases hsafe with e | e
-    · exact Or.inl (by rw [e])
-    · exact Or.inr (by rw [e])
+  refine ⟨m, u, by rw [← r2], r1, ?_, hcl⟩
+  rw [r3]
+  rcases hsafe with e | e
+  · exact Or.inl (by rw [e])
+  · exact Or.inr (by rw [e])
 
 end H2V.Lemmas.ConnHttpP
